@@ -227,6 +227,12 @@ class MinFlowDecomp(pathmodel.AbstractPathModelDAG): # Note that we inherit from
         # A (re-)solve starts from scratch: whatever an earlier solve() of this object found is no longer the answer of this run
         self._is_solved = False
         self._solution = None
+        # (nor are the lower bounds and helper models derived from the graph as it was then)
+        self._lowerbound_k = None
+        self._generating_set = None
+        self._all_subgraph_weights = None
+        self._given_weights_model = None
+        self._source_flow = None
 
         if self.optimization_options.get("optimize_with_guessed_weights", MinFlowDecomp.optimize_with_given_weights):            
             self._solve_with_given_weights()
